@@ -17,7 +17,6 @@ use futures::StreamExt;
 use parking_lot::Mutex;
 
 use std::collections::HashMap;
-use std::io::ErrorKind;
 use std::pin::Pin;
 use std::sync::Arc;
 
@@ -148,11 +147,10 @@ impl SocketSend for XPubSocket {
                     match res {
                         Ok(()) => {}
                         Err(ZmqError::Codec(CodecError::Io(e))) => {
-                            if e.kind() == ErrorKind::BrokenPipe {
-                                dead_peers.push(subscriber.key().clone());
-                            } else {
-                                log::error!("Error sending message: {:?}", e);
-                            }
+                            // Whatever the kind (EPIPE, ECONNRESET after an RST, ETIMEDOUT, ...),
+                            // a write that failed means this connection is dead.
+                            log::debug!("Error sending message: {:?}", e);
+                            dead_peers.push(subscriber.key().clone());
                         }
                         Err(ZmqError::BufferFull(_)) => {
                             // Silently drop the message if the queue for a subscriber is full.
